@@ -125,7 +125,17 @@ def explore(chk):
                          ("scc", "Scenarist_SCC V1.0\n\n00:00:01:00\t94ae 9420 9470 c8e5 942f\n\n00:00:03:00\t942c\n")]
             two_ = [i_ for i_, d_ in enumerate(docs) if d_[0] == fmt_][-2:]
             if two_:
-                ops += [("read", two_[0], False), ("edit", "caption_style", "last"), ("read", two_[-1], False), ("read", two_[0], True)]
+                # (explicit empty options: these reads draw nothing from the check's PRNG, so the other histories stay as they were)
+                ops += [("read", two_[0], False, {}), ("edit", "caption_style", "last"), ("read", two_[-1], False, {}), ("read", two_[0], True, {})]
+        if h % 10 == 0:
+            # one reader object, two documents, the first of which sets something the second does not mention: a MicroDVD frame
+            # rate header, a second SAMI language (fixed histories; no draw from the check's PRNG)
+            sami_ = ('<SAMI><HEAD><STYLE TYPE="text/css"><!--\n.ENCC {Name: English; lang: en-US;}\n%s--></STYLE></HEAD><BODY>\n'
+                     '<SYNC start=1000><P Class=ENCC>hello</P>%s</SYNC>\n<SYNC start=3000><P Class=ENCC>&nbsp;</P>%s</SYNC>\n</BODY></SAMI>\n')
+            docs += [("microdvd", "{0}{0}23.976\n{24}{48}one\n{72}{96}two\n"), ("microdvd", "{25}{50}uno\n{75}{100}dos\n"),
+                     ("sami", sami_ % (".FRCC {Name: French; lang: fr-FR;}\n", "<P Class=FRCC>salut</P>", "<P Class=FRCC>&nbsp;</P>")),
+                     ("sami", sami_ % ("", "", ""))]
+            ops += [("read", len(docs) - 4, True, {}), ("read", len(docs) - 3, True, {}), ("read", len(docs) - 2, True, {}), ("read", len(docs) - 1, True, {})]
         if h % 5 == 2:
             # two SCC documents with italics; then the style node of one result is edited in place
             def scc(word_a, word_b):
